@@ -448,10 +448,7 @@ impl ChainCoder {
             0 => {
                 let mut symbol = 0;
                 model.0.as_parameterized(py, &mut |model| {
-                    symbol = self
-                        .inner
-                        .decode_symbol(EncoderDecoderModel(model))
-                        .expect("We use constant `PRECISION`.");
+                    symbol = self.inner.decode_symbol(EncoderDecoderModel(model))?;
                     Ok(())
                 })?;
                 return Ok(symbol
@@ -472,8 +469,7 @@ impl ChainCoder {
                             .inner
                             .decode_iid_symbols(amt, EncoderDecoderModel(model))
                         {
-                            let symbol = symbol.expect("We use constant `PRECISION`.");
-                            symbols.push(symbol);
+                            symbols.push(symbol?);
                         }
                         Ok(())
                     })?;
@@ -493,10 +489,7 @@ impl ChainCoder {
         model
             .0
             .parameterize(py, optional_amt_or_model_params, false, &mut |model| {
-                let symbol = self
-                    .inner
-                    .decode_symbol(EncoderDecoderModel(model))
-                    .expect("We use constant `PRECISION`.");
+                let symbol = self.inner.decode_symbol(EncoderDecoderModel(model))?;
                 symbols.push(symbol);
                 Ok(())
             })?;
